@@ -104,7 +104,8 @@ def fixture():
                                            axial_extra={'lower': ['hydraulic_diameter = 0.004', 'epsilon = 0.00001']}),
                 'ctrl': geninp.default_asm(2, subsections=pm)}
         inp = geninp.write_case(
-            d, asms, [('fuel', 1, 1, 'FLOWRATE=0.5'), ('ctrl', 2, 1, 'OUTLET_TEMP=773.15'), ('fuel', 2, 2, 'DELTA_TEMP=120.0')],
+            d, asms, [('fuel', 1, 1, 'FLOWRATE=0.5'), ('ctrl', 2, 2, 'OUTLET_TEMP=773.15'), ('fuel', 2, 4, 'DELTA_TEMP=120.0'),
+                      ('fuel', 2, 6, 'FLOWRATE=0.4')],
             setup_lines=['axial_mesh_size = 0.005', 'axial_plane = 0.13, 0.27', 'conv_approx = True',
                          'conv_approx_dz_cutoff = 0.001', '[[Dump]]', '    coolant = True', '    interval = 0.05',
                          '[[AssemblyTables]]', '    [[[t1]]]', '        type = duct_mw', '        assemblies = 1',
@@ -209,8 +210,9 @@ def body_convert(env):
         bp = data['Assignment']['ByPosition']
         tin = data['Core']['coolant_inlet_temp']
         delta = env.real('leaf_delta_temp', lo=-1e6, hi=1e6)
+        i_delta = [i for i, e in enumerate(bp) if e and 'outlet_temp' in e[2]][-1]     # the entry given as DELTA_TEMP
         for i, e in enumerate(bp):
-            if e and i == 2:
+            if e and i == i_delta:
                 e[2] = {'delta_temp': delta}
         ref = None
         if optional_none:
@@ -231,7 +233,7 @@ def body_convert(env):
             env.stop()
         out = s.data
         for path, v in leaves:
-            if path[:3] == ('Assignment', 'ByPosition', 2) and path[3:] == (2, 'outlet_temp'):
+            if path[:3] == ('Assignment', 'ByPosition', i_delta) and path[3:] == (2, 'outlet_temp'):
                 continue
             try:
                 after = get(out, path)
@@ -259,7 +261,7 @@ def body_convert(env):
                           (a_ is None and r_ is None) or (a_ is not None and r_ is not None and a_ == r_),
                           key='default_depends_on_units:' + '/'.join(pth))
         # temperature difference: outlet = inlet + delta in kelvin with the delta scaled, not offset
-        e = out['Assignment']['ByPosition'][2][2]
+        e = out['Assignment']['ByPosition'][i_delta][2]
         env.holds('delta_temp replaced by outlet_temp', 'outlet_temp' in e and 'delta_temp' not in e)
         scale = F(5, 9) if tu == 'fahrenheit' else 1
         if 'outlet_temp' in e:
@@ -391,8 +393,8 @@ def main():
                      'otherwise, against an independent key classification.  Round trips of all scalar converters are '
                      'identities over the reals; every unit spelling check_units accepts must be converted without exception.'),
         bounds={'unit combinations': 'all 90 (5 length x 3 temperature x 2 mass x 3 time)', 'unit spellings': 'every spelling in the utils tables (thorough adds the "per" forms)',
-                'fixture': '2 assembly types (FuelModel + SpacerGrid + 2 axial regions; PinModel), 3 assignments '
-                           '(flowrate, outlet_temp, delta_temp), Orificing, AssemblyTables, Dump'},
+                'fixture': '2 assembly types (FuelModel + SpacerGrid + 2 axial regions; PinModel), 4 assignments on a 7-position map with '
+                           'empty positions between them (flowrate, outlet_temp, delta_temp, flowrate), Orificing, AssemblyTables, Dump'},
         outside=['effect on Reactor.z / temperatures (follows from identical SI data)', 'table.py output conversion',
                  'string parsing by ConfigObj'],
         level_assumptions=['the key classification table in this harness (length / temperature / flow / dimensionless) is the oracle',
